@@ -226,6 +226,7 @@ m("reeval-structure-revert", "_snapshot/generic_value.py", "            if isins
 m("crlf-fix-lone-cr", "_rewrite_code.py", '        if isinstance(newlines, str) and newlines != "\\n":', '        if newlines == "\\r\\n":', ["C03"], "only CRLF is preserved, lone CR files become LF")
 m("minmax-count-revert", "_snapshot/min_max_value.py", "        if ignore_old_value() or state().update_flags.create:", "        if ignore_old_value() or state().update_flags.create:\n            return True\n        if False:", ["C07"], "revert: failing bounds under fix/update are green")
 m("persist-star-revert2", "_external.py", '            name = f"{stem}*{dot}{suffix}"', '            name = f"{stem}{dot}{suffix}"', ["C13"], "revert variant: full-hash names not globbed")
+m("relative-to-cwd-revert", "pytest_plugin.py", "                        try:\n                            name = file.filename.relative_to(Path.cwd())\n                        except ValueError:\n                            # pytest was started outside of the directory of the test file\n                            name = file.filename\n", "                        name = file.filename.relative_to(Path.cwd())\n", ["C18", "C04"], "revert: session started in another directory crashes at session end")
 m("run-inline-external-import-only", "testing/_example.py", '                    if used_hasrepr(tree):\n                        required_imports.append("HasRepr")', '                    if used_hasrepr(tree) and used_externals(tree):\n                        required_imports.append("HasRepr")', ["C19"], "HasRepr import only added together with external")
 
 
